@@ -86,6 +86,19 @@ pub fn run(op: &str, e: &Value, ctx: &mut Ctx) -> Result<Value, String> {
             o["lanes_in"] = Value::Array(l.iter().map(fe_limbs).collect());
             Ok(o)
         }
+        #[cfg(feature = "simd")]
+        "vec.from_raw" => {
+            // AVX2 only: "lanes": four lanes of ten 32-bit limbs each (each limb as little-endian bytes)
+            let l = e["lanes"].as_array().ok_or("lanes")?;
+            let lv: Vec<Vec<u64>> = l.iter().map(|x| limbs_of(x)).collect::<Result<_, _>>()?;
+            let g = |a: usize, k: usize| lv[a][k] as u32;
+            let mut r = [[0u32; 8]; 5];
+            for i in 0..5 {
+                r[i] = [g(0, 2 * i), g(1, 2 * i), g(0, 2 * i + 1), g(1, 2 * i + 1), g(2, 2 * i), g(3, 2 * i), g(2, 2 * i + 1), g(3, 2 * i + 1)];
+            }
+            let v = VV::A(hook::avx2::V::from_raw(&r));
+            set_vv(ctx, e, vec![], v)
+        }
         "vec.op1" => {
             let a = vv_arg(ctx, inp(e, 0)?)?;
             let name = e["f"].as_str().ok_or("f")?;
@@ -151,6 +164,51 @@ pub fn run(op: &str, e: &Value, ctx: &mut Ctx) -> Result<Value, String> {
                 _ => return Err("vector kind not compiled".into()),
             };
             Ok(json!({"lanes": lanes_obs(&l)}))
+        }
+        // ---------------- group formulas on boundary representations (C11) ----------------
+        "chk.formulas" => {
+            // in = 8 field elements (raw limbs): coordinates X Y Z T of two "points" whose limbs sit at the type
+            // invariant's bound.  The values need not be on the curve: only overflow checks, debug assertions and
+            // lane-bound monitors are of interest, so nothing but the panic field of this event is judged.
+            use curve25519_dalek::traits::{Identity, MultiscalarMul, VartimeMultiscalarMul};
+            let mut c = Vec::new();
+            for i in 0..8 {
+                c.push(fe_arg(ctx, inp(e, i)?)?);
+            }
+            let p = hook::edwards_from_coords(&[c[0], c[1], c[2], c[3]]);
+            let q = hook::edwards_from_coords(&[c[4], c[5], c[6], c[7]]);
+            let s = Scalar::from_bytes_mod_order(arr32(&e["s"])?);
+            let mut acc = EdwardsPoint::identity();
+            acc += &p + &q;
+            acc += &p - &q;
+            acc += -&p;
+            acc += hook::edwards_double(&p);
+            acc += p.mul_by_cofactor();
+            acc += &p * &s;
+            acc += EdwardsPoint::vartime_double_scalar_mul_basepoint(&s, &q, &s);
+            acc += EdwardsPoint::multiscalar_mul([s, s].iter(), [p, q].iter());
+            acc += EdwardsPoint::vartime_multiscalar_mul([s, s].iter(), [p, q].iter());
+            let _ = p.compress();
+            let _ = p.to_montgomery();
+            let _ = p == q;
+            let _ = p.is_small_order();
+            let r = hook::ristretto_from_edwards(&p);
+            let _ = r.compress();
+            let _ = r == hook::ristretto_from_edwards(&q);
+            let _ = RistrettoPoint::double_and_compress_batch([r, hook::ristretto_from_edwards(&q)].iter());
+            #[cfg(feature = "simd")]
+            if std::is_x86_feature_detected!("avx2") {
+                for f in ["roundtrip", "double", "add", "sub", "add_neg", "pow2"] {
+                    acc += hook::avx2::point_op(f, &p, &q, 3);
+                }
+            }
+            #[cfg(feature = "avx512")]
+            if std::is_x86_feature_detected!("avx512ifma") {
+                for f in ["roundtrip", "double", "add", "sub", "add_neg", "pow2"] {
+                    acc += hook::ifma::point_op(f, &p, &q, 3);
+                }
+            }
+            Ok(json!({"done": true, "acc": jbytes(acc.compress().as_bytes())}))
         }
         // ---------------- constants and raw table entries (C12) ----------------
         "const.dump" => {
